@@ -320,6 +320,9 @@ class UTPM(Ring, RawAlgorithmsMixIn):
         return cls.pb___setitem__(y, sl, x, out = out)
 
     def __add__(self,rhs):
+        if isinstance(rhs, (list, tuple)):
+            # a constant given as a (nested) list, as NumPy accepts
+            rhs = numpy.asarray(rhs)
         if numpy.isscalar(rhs):
             dtype = numpy.promote_types(self.data.dtype, type(rhs))
             retval = UTPM(numpy.zeros(self.data.shape, dtype=dtype))
@@ -353,6 +356,9 @@ class UTPM(Ring, RawAlgorithmsMixIn):
             return UTPM(x_data + y_data)
 
     def __sub__(self,rhs):
+        if isinstance(rhs, (list, tuple)):
+            # a constant given as a (nested) list, as NumPy accepts
+            rhs = numpy.asarray(rhs)
         if numpy.isscalar(rhs):
             dtype = numpy.promote_types(self.data.dtype, type(rhs))
             retval = UTPM(numpy.zeros(self.data.shape, dtype=dtype))
@@ -385,6 +391,9 @@ class UTPM(Ring, RawAlgorithmsMixIn):
             return UTPM(x_data - y_data)
 
     def __mul__(self,rhs):
+        if isinstance(rhs, (list, tuple)):
+            # a constant given as a (nested) list, as NumPy accepts
+            rhs = numpy.asarray(rhs)
         if numpy.isscalar(rhs):
             return UTPM( self.data * rhs)
 
@@ -411,6 +420,9 @@ class UTPM(Ring, RawAlgorithmsMixIn):
         return UTPM(z_data)
 
     def __truediv__(self,rhs):
+        if isinstance(rhs, (list, tuple)):
+            # a constant given as a (nested) list, as NumPy accepts
+            rhs = numpy.asarray(rhs)
         if numpy.isscalar(rhs):
             return UTPM( self.data/rhs)
 
@@ -538,6 +550,9 @@ class UTPM(Ring, RawAlgorithmsMixIn):
         return tmp/self
 
     def __iadd__(self,rhs):
+        if isinstance(rhs, (list, tuple)):
+            # a constant given as a (nested) list, as NumPy accepts
+            rhs = numpy.asarray(rhs)
         if isinstance(rhs,numpy.ndarray) and rhs.dtype == object:
             raise NotImplementedError('should implement that')
 
@@ -550,6 +565,9 @@ class UTPM(Ring, RawAlgorithmsMixIn):
         return self
 
     def __isub__(self,rhs):
+        if isinstance(rhs, (list, tuple)):
+            # a constant given as a (nested) list, as NumPy accepts
+            rhs = numpy.asarray(rhs)
         if isinstance(rhs,numpy.ndarray) and rhs.dtype == object:
             raise NotImplementedError('should implement that')
 
@@ -562,6 +580,9 @@ class UTPM(Ring, RawAlgorithmsMixIn):
         return self
 
     def __imul__(self,rhs):
+        if isinstance(rhs, (list, tuple)):
+            # a constant given as a (nested) list, as NumPy accepts
+            rhs = numpy.asarray(rhs)
         (D,P) = self.data.shape[:2]
 
         if isinstance(rhs,numpy.ndarray) and rhs.dtype == object:
@@ -585,6 +606,9 @@ class UTPM(Ring, RawAlgorithmsMixIn):
         return self
 
     def __itruediv__(self,rhs):
+        if isinstance(rhs, (list, tuple)):
+            # a constant given as a (nested) list, as NumPy accepts
+            rhs = numpy.asarray(rhs)
         (D,P) = self.data.shape[:2]
         if isinstance(rhs,numpy.ndarray) and rhs.dtype == object:
             raise NotImplementedError('should implement that')
